@@ -362,7 +362,9 @@ class C08(PropertyCheck):
                     res.failures.append(f)
         if self.tier == "thorough":
             for label, build, items in R:
-                if label in ("mugs",):
+                if label in ("mugs", "xt-scheduled"):
+                    # mugs: heavy; scheduled: once a worker is initialised the strength follows the schedule by design
+                    # (C15), i.e. the value is a function of (data, config, seed, i, schedule position)
                     continue
                 res.cases += 1
                 res.bump("dataloader")
